@@ -25,6 +25,12 @@ CLAIMED["C12"] = (
     "Trusted: SStr/SInt models (validated against CPython/urllib on every run), z3. Stubs: numpy int8<->bytes score conversion -> +-offset arithmetic; file objects -> symbolic text buffer; urllib quote/unquote -> models. Outside: GenBank qualifier regex and ORIGIN formatting, GenPept, sequences/headers beyond the menus, non-ASCII. One known finding (GFF3 trailing blank in the last column).",
     "DESIGN.md §4 C12")
 
+CLAIMED["C20"] = (
+    "bounded symbolic exploration of call sequences x environment behaviours: op-codes and the external program's behaviour (launch failure, hang, exit code, output kind and order) are z3 variables forked by the SX explorer over the unmodified application package with a stubbed Popen; oracle = documented life-cycle automaton + resource assertions",
+    "Bounded model checking of the wrapper life cycle: every call sequence up to the bound over 10 API calls, for every behaviour of the external program, is executed on the real ClustalOmegaApp/MafftApp/MuscleApp/Muscle5App code (process replaced by a nondeterministic stub); after every call the state, the success/AppStateError outcome, the results, clean_up count, temp files, child process and working directory are compared with the automaton. Bounds: length 3 (ClustalOmega) / 2 (others) quick, 4 thorough; 3 input sequences.",
+    "Trusted: the FakePopen stub as a model of subprocess (poll/communicate/kill/TimeoutExpired); the automaton in obligations/sx_c20.py. Outside: WebApp, real process timing races, join() without timeout on a hanging program, applications other than the four MSA wrappers, map_sequence/map_matrix.",
+    "DESIGN.md §4 C20")
+
 NOT_APPLICABLE = {
     "C15": "float results of numpy/LAPACK (linalg solves, trigonometry, argmin over float images): no integer/string logic in front of the C boundary that a solver could reason about; an abstraction over the reals would verify a model of numpy, not the code (DESIGN §6)",
     "C16": "optimality/properness come from np.linalg.svd/det (LAPACK behind FFI) on float32 data; no encodable source; z3 terms cannot pass astype(float32) (DESIGN §6)",
